@@ -65,8 +65,8 @@ set(v)
 set(v)
 set(v)
 iter(v)
-iter(v)
-iter(v)
+iter(tuple(v))
+iter(list(v))
 reversed(tuple(v))
 reversed(list(v))
 tuple(v)
